@@ -160,7 +160,10 @@ impl<T: ValueRef<U> + ?Sized, U: PrimitiveValueType> ArrayBuilder for BytesArray
     }
 
     fn replace_bitmap(&mut self, valid: BitVec) {
-        let _ = mem::replace(&mut self.valid, valid);
+        // (a batch may be filled from several blocks: values appended earlier keep their validity)
+        let keep = self.valid.len().saturating_sub(valid.len());
+        self.valid.truncate(keep);
+        self.valid.extend_from_bitslice(&valid);
     }
 
     fn with_capacity(capacity: usize) -> Self {
